@@ -25,6 +25,9 @@ t_mi == <<46, 109, 91, 93>>          \* .m[]
 t_x  == <<46, 120>>                  \* .x
 t_xq == <<46, 120, 63>>              \* .x?
 t_xyq == <<46, 120, 46, 121, 63>>    \* .x.y?   (required .x, optional .y: both kinds of missing data)
+t_mqx == <<46, 109, 63, 46, 120>>           \* .m?.x  (optional parent, REQUIRED child: with m absent the data is missing, not optional)
+t_l3qx == <<46, 108, 91, 49, 93, 63, 46, 120>>   \* .l[1]?.x
+t_mqxq == <<46, 109, 63, 46, 120, 63>>      \* .m?.x?
 Sels == {t_id, t_a, t_aq, t_b, t_bq, t_l, t_l0, t_li, t_mi}
 
 sA == Str(<<97>>)  sAB == Str(<<97, 98>>)
@@ -72,7 +75,13 @@ Nested == {Not(c) : c \in {x \in Conns : Len(x.ss) = 2}} \cup
                 Quant("all", t_l, Conn("or", <<Cmp("==", t_id, Int_(1)), Cmp("==", t_xq, Int_(1))>>)),
                 Quant("any", t_mi, Not(Cmp("==", t_id, Int_(1))))}
 
-Stmts == Leaves \cup Conns \cup Quants \cup Nested
+\* a required segment below an optional one that did not resolve
+OptParent == UNION {{Cmp("==", t, Int_(1)), Cmp("<", t, Int_(3)), Like(t, <<97, 42>>), Not(Cmp("==", t, Int_(1))),
+                     Conn("and", <<Cmp("==", t, Int_(1)), Cmp("==", t_aq, Int_(1))>>),
+                     Conn("or", <<Cmp("==", t, Int_(1)), Cmp("==", t_a, Int_(7))>>),
+                     Quant("all", t, Cmp(">", t_id, Int_(0))), Quant("any", t, Cmp("==", t_id, Int_(1)))} : t \in {t_mqx, t_l3qx, t_mqxq}}
+
+Stmts == Leaves \cup Conns \cup Quants \cup Nested \cup OptParent
 
 \* data
 Absent == <<"absent">>
